@@ -10,6 +10,7 @@
     into what holds all along ([p_back], [p_cn]) and what is recovered at the end. *)
 From Coq Require Import Ascii String List Bool PArith NArith FMapPositive Permutation Lia.
 From PTBase Require Import Exn PyStr.
+From Gen Require Import GenFlags.
 From P Require Import Assoc GridEdit GridLemmas Inv.
 Import ListNotations.
 Open Scope list_scope.
@@ -91,7 +92,10 @@ Qed.
 
 (** ** the loop invariant of [__add__], relative to the state [g0] in which it was called *)
 Record Pre (g0 g : grid) : Prop := {
-  p_rn : rn g = rn g0; p_bn : bn g = bn g0; p_br : br g = br g0; p_c0 : c0 g = c0 g0; p_c1 : c1 g = c1 g0;
+  p_rn : rn g = rn g0; p_bn : bn g = bn g0; p_c0 : c0 g = c0 g0; p_c1 : c1 g = c1 g0;
+  (* a block's rock type object may have been exchanged for a newer one of the same name (repaired add_rocktype) *)
+  p_brn : forall i, rn g0 (br g i) = rn g0 (br g0 i);
+  p_brf : forall i, (br g0 i < next g0)%positive -> (br g i < next g0)%positive;
   p_next : next g = next g0;
   p_r : DL (rn g0) (rlist g) (rdict g);
   p_b : DL (bn g0) (blist g) (bdict g);
@@ -113,7 +117,7 @@ Proof. intro P. unfold ckey. rewrite (p_bn _ _ P), (p_c0 _ _ P), (p_c1 _ _ P). r
 (** [result = t2grid()] *)
 Lemma pre_init g : Pre g (with_view g view0).
 Proof.
-  constructor; try reflexivity; cbn; try apply DL_empty; try tauto.
+  constructor; try reflexivity; cbn; try apply DL_empty; try tauto; auto.
 Qed.
 
 (** [result.add_rocktype(rt)] *)
@@ -126,14 +130,27 @@ Proof.
   assert (F : forall x, In x (ladd str_eqb (rn g0) (rlist g) (rdict g) j) -> (x < next g0)%positive).
   { intros x Hx. apply ladd_incl in Hx. destruct Hx as [Hx| ->]; [apply (p_rfresh _ _ P); exact Hx|exact Hlt]. }
   unfold ladd in D, F.
-  assert (G : g' = set_rdict (set_rlist g (match aget str_eqb (rdict g) (rn g0 j) with
-                                          | Some old => lreplace (rlist g) old j | None => rlist g ++ [j] end))
-                              (aset str_eqb (rdict g) (rn g0 j) j)).
-  { destruct (aget str_eqb (rdict g) (rn g0 j)) as [old|]; [destruct (mem old (rlist g)); [|discriminate]|]; inversion H; reflexivity. }
-  subst g'. clear H.
-  split; [|gs; repeat split; try reflexivity].
-  - constructor; try apply P; gs; auto.
-    intros i Hi. apply (in_keys_aset str_eqb str_spec). right. apply (p_rock _ _ P). exact Hi.
+  set (g1 := set_rdict (set_rlist g (match aget str_eqb (rdict g) (rn g0 j) with
+                                     | Some old => lreplace (rlist g) old j | None => rlist g ++ [j] end))
+                        (aset str_eqb (rdict g) (rn g0 j) j)).
+  assert (P1 : Pre g0 g1).
+  { unfold g1. constructor; try apply P; gs; auto.
+    intros i Hi. apply (in_keys_aset str_eqb str_spec). right. apply (p_rock _ _ P). exact Hi. }
+  (* the repaired variant then hands the blocks of the replaced rock type to [j]: same name, below the allocation counter *)
+  assert (G : g' = g1 \/ exists old, aget str_eqb (rdict g) (rn g0 j) = Some old /\ g' = relink g1 old j).
+  { destruct (aget str_eqb (rdict g) (rn g0 j)) as [old|] eqn:E; [destruct (mem old (rlist g)); [|discriminate]|]; inversion H; [|left; reflexivity].
+    unfold relink_if. destruct (add_rocktype_relinks && negb (Pos.eqb old j)); [right; exists old; auto|left; reflexivity]. }
+  assert (R : Pre g0 g' /\ blist g' = blist g1 /\ clist g' = clist g1 /\ rdict g' = rdict g1).
+  { destruct G as [->|[old [E ->]]]; [auto|]. split; [|repeat split; reflexivity].
+    assert (En : rn g0 old = rn g0 j) by exact (proj2 (DL_aget str_eqb str_spec _ _ _ _ _ (p_r _ _ P) E)).
+    constructor; try apply P1.
+    - intro i. change (rn g0 (br (relink g1 old j) i) = rn g0 (br g0 i)). rewrite br_relink.
+      destruct (mem i (blist g1) && Pos.eqb (br g1 i) old) eqn:C; [|apply (p_brn _ _ P1)].
+      apply andb_true_iff in C. destruct C as [_ C]. apply Pos.eqb_eq in C. rewrite <- (p_brn _ _ P1 i), C. symmetry. exact En.
+    - intros i Hi. change (br (relink g1 old j) i < next g0)%positive. rewrite br_relink.
+      destruct (mem i (blist g1) && Pos.eqb (br g1 i) old); [exact Hlt|apply (p_brf _ _ P1); exact Hi]. }
+  destruct R as [P' [Eb [Ec Er]]]. clear H G.
+  split; [exact P'|]. rewrite Eb, Ec, Er. unfold g1. gs. repeat split; try reflexivity.
   - intros k Hk. apply (in_keys_aset str_eqb str_spec). right. exact Hk.
   - apply (in_keys_aset str_eqb str_spec). left. reflexivity.
 Qed.
@@ -158,7 +175,7 @@ Proof.
   assert (Lkeep : forall x, In x (blist g) -> aget str_eqb (bdict g) (bn g0 i) <> Some x \/ x = i -> In x L).
   { intros x Hx [N| ->]; [|exact Li]. apply (ladd_keep str_eqb str_spec); [apply P|exact Hx|exact N]. }
   assert (G : g' = set_bdict (set_blist g L) (aset str_eqb (bdict g) (bn g0 i) i)).
-  { unfold L, ladd. destruct (aget str_eqb (bdict g) (bn g0 i)) as [old|]; [destruct (mem old (blist g)); [|discriminate]|]; inversion H; reflexivity. }
+  { unfold L, ladd. destruct (aget str_eqb (bdict g) (bn g0 i)) as [old|]; [norefuse H; destruct (mem old (blist g)); [|discriminate]|]; inversion H; reflexivity. }
   subst g'. clear H.
   (* an end of a connection of the result is not replaced *)
   assert (Ends : forall j, In j (clist g) -> In (c0 g0 j) L /\ In (c1 g0 j) L).
@@ -348,7 +365,8 @@ Proof.
     + inversion E1; subst; exact Hk.
     + destruct (add_rocktype_obj r j) as [r1|] eqn:E; cbn [bind] in E1; [|discriminate].
       apply (IH r1 g1); [|exact E1]. unfold add_rocktype_obj in E.
-      destruct (rget r (rn r j)) as [old|]; [destruct (mem old (rlist r)); [|discriminate]|]; inversion E; subst; exact Hk.
+      destruct (rget r (rn r j)) as [old|]; [destruct (mem old (rlist r)); [|discriminate]|]; inversion E; subst; [|exact Hk].
+      unfold relink_if. destruct (add_rocktype_relinks && negb (Pos.eqb old j)); exact Hk.
   - exact N3.
 Qed.
 
@@ -420,8 +438,8 @@ Proof.
       * apply (W a Ia); [exact Ka|intros j Hj; apply M2; apply N1; exact Hj|exact Hi|exact Hk0].
       * apply (W b Ib); [exact Kb|exact N2|exact Hi|exact Hk0].
     + intros [j [Hj [Kj Mj]]]. destruct (p_back _ _ P2 j Hj) as [A B]. rewrite <- Kj. destruct Mj as [<-|<-]; assumption.
-  - intros i Hi. rewrite (p_rn _ _ P2), (p_br _ _ P2). apply (p_rock _ _ P2). exact Hi.
-  - intros i Hi. rewrite (p_br _ _ P2), (p_next _ _ P2). apply (p_brfresh _ _ P2). exact Hi.
+  - intros i Hi. rewrite (p_rn _ _ P2), (p_brn _ _ P2). apply (p_rock _ _ P2). exact Hi.
+  - intros i Hi. rewrite (p_next _ _ P2). apply (p_brf _ _ P2). apply (p_brfresh _ _ P2). exact Hi.
   - intros j Hj. rewrite (p_next _ _ P2). apply (p_rfresh _ _ P2). exact Hj.
   - intros i Hi. rewrite (p_next _ _ P2). apply (p_bfresh _ _ P2). exact Hi.
   - intros j Hj. rewrite (p_next _ _ P2). apply (p_cfresh _ _ P2). exact Hj.
